@@ -284,7 +284,21 @@ def weave_region(repo, reg, mode, log, contract_only=False):
     if contract_only:
         # keep only the annotations of the signature (the contract); proof hints inside the body are dropped
         cbo = _body_open(creal)
-        anns_before = {k: v for k, v in anns_before.items() if k <= cbo}
+        kept = {}
+        for k, v in anns_before.items():
+            if k <= cbo:
+                kept[k] = v
+            else:
+                # termination measures and iterator labels / type hints are kept (Verus rejects a loop without
+                # `decreases`); invariants and proof hints are dropped
+                for a in v:
+                    ls = a.split("\n")
+                    idx = [i for i, l in enumerate(ls) if l.strip().startswith("decreases")]
+                    if idx:
+                        kept.setdefault(k, []).append("\n".join(ls[idx[0]:]))
+                    elif a.strip().startswith((":", "it:", "jt:", "iter:")) or a.strip().startswith("#["):
+                        kept.setdefault(k, []).append(a)
+        anns_before = kept
     sm = difflib.SequenceMatcher(None, creal, new, autojunk=False)
     out = []
     nann = 0
@@ -292,32 +306,52 @@ def weave_region(repo, reg, mode, log, contract_only=False):
 
     # annotations are anchored AFTER the preceding real token (anns_before[k] follows token k-1): a loop
     # invariant stays attached to the end of its loop header, a contract to the end of the signature.
-    def emit_anns(k):
+    # A statement-like chunk (proof block, ghost let, assert) whose anchor token disappeared is not dropped into
+    # the middle of whatever replaced it: it is deferred to the next statement boundary of the new code.
+    pending = []
+
+    def is_clause(a):
+        s0 = a.lstrip()
+        return s0.startswith(("invariant", "requires", "ensures", "decreases", ":", "it:", "jt:", "iter:"))
+
+    def emit_anns(k, anchored=True):
         nonlocal nann
         for a in anns_before.get(k, []):
-            out.append("\n//@+\n" + a + "\n//@-\n")
+            if anchored or is_clause(a):
+                out.append("\n//@+\n" + a + "\n//@-\n")
+            else:
+                pending.append(a)
             nann += 1
+
+    def emit_tok(t):
+        out.append(_tok_out(t))
+        if t in (";", "{", "}") and pending:
+            for a in pending:
+                out.append("\n//@+\n" + a + "\n//@-\n")
+            del pending[:]
 
     emit_anns(0)
     for tag, i1, i2, j1, j2 in sm.get_opcodes():
         if tag == "equal":
             for k in range(i1, i2):
-                out.append(_tok_out(creal[k]))
+                emit_tok(creal[k])
                 emit_anns(k + 1)
         elif tag == "delete":
             changed = True
             for k in range(i1, i2):
-                emit_anns(k + 1)
+                emit_anns(k + 1, anchored=(k == i2 - 1 and creal[k] in (";", "{", "}") and False))
         elif tag == "insert":
             changed = True
             for j in range(j1, j2):
-                out.append(_tok_out(new[j]))
+                emit_tok(new[j])
         else:
             changed = True
             for j in range(j1, j2):
-                out.append(_tok_out(new[j]))
+                emit_tok(new[j])
             for k in range(i1, i2):
-                emit_anns(k + 1)
+                emit_anns(k + 1, anchored=False)
+    for a in pending:
+        out.append("\n//@+\n" + a + "\n//@-\n")
     text = _layout("".join(out))
     return text, {"name": reg.name, "mode": "verify", "loc": loc, "changed": changed, "nann": nann,
                   "real_tokens": new, "contract_only": contract_only}
